@@ -195,6 +195,10 @@ func init() {
 			}
 			return []int{0, n - 1}[fr.i.choice(2)]
 		},
+		"math/rand.Int31":  func(fr *frame, a []value) value { return int32(12345) },
+		"math/rand.Int63":  func(fr *frame, a []value) value { return int64(1234567) },
+		"math/rand.Uint32": func(fr *frame, a []value) value { return uint32(12345) },
+		"math/rand.Int":    func(fr *frame, a []value) value { return int(12345) },
 		// ---- x/exp/rand: a pick is an explored choice
 		"(*golang.org/x/exp/rand.Rand).Intn": func(fr *frame, a []value) value {
 			n := int(fr.i.asInt(a[1]))
